@@ -167,6 +167,9 @@ class Summary:
             else:
                 data = ('const', None)
             self.entries.append((k, _cond_key(ev.conds), norm(data), ev.lineno))
+        self.calls = []         # (callee qname, condkey, call term, lineno): every call evaluated, wherever it is written
+        for t, conds, node in r.calls:
+            self.calls.append((t[1], _cond_key(conds), norm(t), getattr(node, 'lineno', 0)))
         self.finals = {}
         for p in f.params:
             v = r.env.get(p)
@@ -249,3 +252,57 @@ def compare_module(ctx, modname, names, rule, whats=None):
 def _doc(node):
     d = ast.get_docstring(node) or ""
     return d.strip().split("\n")[0][:200]
+
+
+def _field_of(store):
+    """output field a deep store goes to: data.sampledata[FORMAT.X][sample] -> 'X'; data.infodata[INFO.X] -> 'X';
+    data.columndata["REF"] -> 'REF'.  `store` is the ('tuple', (base, index, value)) of the event"""
+    base, idx = store[1][0], store[1][1]
+    for part in (base, idx):
+        for x in walk(part):
+            if x[0] == 'name' and ('.formatfields.' in x[1] or '.infofields.' in x[1]):
+                return x[1].split('.')[-1]
+    if base[0] == 'attr' and base[2] in ('columndata', 'infodata') and idx[0] == 'const' and isinstance(idx[1], str):
+        return idx[1]
+    return None
+
+
+def compare_slice(ctx, target_q, spec_node, rule, what, callee_prefixes=(), fields=None, only_args=None):
+    """agreement with the reference restricted to what one property owns in a shared orchestrating function: the calls of the
+    given callees (with the full use-def terms of their arguments, i.e. their backward slices) and the stores to the given output
+    fields (with the terms of the stored values)"""
+    tf = ctx.func(target_q)
+    sf = Func(target_q + '#reference', tf.module, spec_node, tf.cls, tf.jit)
+    got, want = Summary(ctx.prog, ctx.eff, tf), Summary(ctx.prog, ctx.eff, sf)
+
+    def pick(sm):
+        out = []
+        for q, ck, t, ln in sm.calls:
+            if any(q.startswith(pre) for pre in callee_prefixes):
+                if only_args is not None:
+                    # only the named arguments of the call belong to this property
+                    t = ('tuple', tuple(v for k, v in t[3] if k in only_args))
+                out.append(('call ' + q.split('.')[-1], ck, digest(_arith(t)), t, ln))
+        if fields is not None:
+            for k, ck, d, ln in sm.entries:
+                if k == 'deepstore':
+                    fld = _field_of(d)
+                    if fld is not None and (fields == '*' or fld in fields):
+                        out.append(('store ' + fld, ck, digest(_arith(d)), d, ln))
+        return out
+    g, w = pick(got), pick(want)
+    construct = tf.construct('slice:' + what)
+    if not w:
+        raise AnalysisError(f"{target_q}: the reference has nothing to compare for {what}")
+    gk = sorted(e[:3] for e in g)
+    wk = sorted(e[:3] for e in w)
+    if gk == wk:
+        ctx.ok(rule, construct, f"{len(w)} calls/stores agree with the reference")
+        return True
+    extra = [e for e in g if e[:3] not in wk]
+    missing = [e for e in w if e[:3] not in gk]
+    lines = [f"   in the code, not in the reference: {e[0]} at line {e[4]}: {show(e[3])[:260]}" for e in extra[:3]]
+    lines += [f"   in the reference, not in the code: {e[0]}: {show(e[3])[:260]}" for e in missing[:3]]
+    where = f"{tf.module.relpath}:{extra[0][4]}" if extra else tf.where()
+    ctx.violation(rule, construct, f"{tf.name}: {what} no longer agrees with the reference:\n" + "\n".join(lines), where)
+    return False
